@@ -465,9 +465,6 @@ CONTRACTS.update({
                               "vl.block is not vr.block"]},
         ],
     },
-    "vpsc.Blocks.cost": {
-        "props": ["C05"], "mode": "assume", "why": "sum over the block partition (bounded only)",
-        "requires": [], "modifies": [], "returns": "real", "ensures": []},
     # ---- verified --------------------------------------------------------------------------------------------------------
     "vpsc.Solver.satisfy": {
         "props": ["C05", "C01", "C03"], "heap": True,
@@ -757,7 +754,96 @@ def cost_of_state(E, P, ctx):
 
 
 SPECFUNS["cost_of_state"] = cost_of_state
-CONTRACTS["vpsc.Blocks.cost"]["ensures"] = ["result == cost_of_state()"]
+
+
+# ------------------------------------------------------------------------------------------- Block.cost / Blocks.cost
+# "the reported cost equals the cost of the reported positions": the weighted squared displacement as nested suffix sums
+# (the loops run downwards) over the block list and each block's member list - uninterpreted sums unfolded one step.
+_COST_ARRS = ["Variable.offset", "Variable.block", "Variable.scale", "Variable.weight", "Variable.desiredPosition",
+              "Block.posn", "Block.ps", "Block.vars", "PositionStats.scale"]
+
+
+def _cost_arrays(E, P):
+    arrs = []
+    for k in _COST_ARRS:
+        cls, f = k.split(".")
+        arrs.append(E.heap_array(P, k, E.sort_of_kind(E.field_kind(cls, f))))
+    arrs.append(E.heap_array(P, "list.elems.ref~Variable@vars", z3.ArraySort(IntS, z3.ArraySort(IntS, RefS))))
+    arrs.append(E.heap_array(P, "list.len.ref~Variable@vars", z3.ArraySort(IntS, IntS)) if False else E.heap_array(P, "list.len.ref~Variable@vars", IntS))
+    return arrs
+
+
+def _uf(E, name, sorts):
+    f = E.uf.get(name)
+    if f is None:
+        f = E.uf[name] = z3.Function(name, *sorts)
+    return f
+
+
+def _vterm(E, P, v):
+    """w (position - desired)^2 of one variable, position = (S posn + offset) / scale"""
+    vr = Ref(v, "Variable")
+    pos = spos(E, P, None, vr)[0][1].t / rd(E, P, vr, "Variable", "scale").t
+    d = pos - rd(E, P, vr, "Variable", "desiredPosition").t
+    return d * d * rd(E, P, vr, "Variable", "weight").t
+
+
+def costv(E, P, ctx, blk, k):
+    """sum over the members j >= k of block blk"""
+    arrs = _cost_arrays(E, P)
+    f = _uf(E, "COSTV", [RefS] + [a.sort() for a in arrs] + [IntS, RealS])
+    lst = rd(E, P, blk, "Block", "vars")
+    n = E.l_len(P, lst)
+    row = E.l_elems(P, lst)
+    kt = k.t
+    g = lambda j: f(blk.t, *arrs, j)
+    P.assume(g(n) == 0)
+    P.assume(z3.Implies(z3.And(0 <= kt, kt < n), g(kt) == g(kt + 1) + _vterm(E, P, z3.Select(row, kt))))
+    P.assume(z3.Implies(z3.And(0 < kt, kt <= n), g(kt - 1) == g(kt) + _vterm(E, P, z3.Select(row, kt - 1))))
+    return [(P, Num(g(kt), False))]
+
+
+def costb(E, P, ctx, bs, k):
+    """sum over the blocks j >= k of the list of bs of their member sums"""
+    arrs = _cost_arrays(E, P)
+    lst = rd(E, P, bs, "Blocks", "_list")
+    row = E.l_elems(P, lst)
+    n = E.l_len(P, lst)
+    f = _uf(E, "COSTB", [row.sort()] + [a.sort() for a in arrs] + [IntS, RealS])
+    fv = _uf(E, "COSTV", [RefS] + [a.sort() for a in arrs] + [IntS, RealS])
+    kt = k.t
+    g = lambda j: f(row, *arrs, j)
+    P.assume(g(n) == 0)
+    P.assume(z3.Implies(z3.And(0 <= kt, kt < n), g(kt) == g(kt + 1) + fv(z3.Select(row, kt), *arrs, z3.IntVal(0))))
+    P.assume(z3.Implies(z3.And(0 < kt, kt <= n), g(kt - 1) == g(kt) + fv(z3.Select(row, kt - 1), *arrs, z3.IntVal(0))))
+    return [(P, Num(g(kt), False))]
+
+
+SPECFUNS.update({"costv": costv, "costb": costb})
+CONTRACTS["vpsc.Block.cost"] = {
+    "props": ["C05"], "heap": True,
+    "params": {"self": "ref:Block"},
+    "requires": ["self.vars is not None", "forall(lambda j: implies(0 <= j < len(self.vars), self.vars[j] is not None and self.vars[j].scale != 0 "
+                                          "and self.vars[j].block is not None and self.vars[j].block.ps is not None))"],
+    "modifies": [], "returns": "real",
+    "loops": {"for i in range(len(self.vars) - 1, -1, -1)": {
+        "label": "_members", "index": "_kc", "locals": {"i": "int", "v": "ref:Variable", "d": "real", "_sum": "real"},
+        "inv": [("suffix_sum", "_sum == costv(self, _kc + 1)")]}},
+    "ensures": [("sum_over_the_members", "result == costv(self, 0)")],
+}
+CONTRACTS["vpsc.Blocks.cost"] = {
+    "props": ["C05"], "heap": True,
+    "params": {"self": "ref:Blocks"},
+    "requires": ["self._list is not None",
+                 "forall(lambda j: implies(0 <= j < len(self._list), self._list[j] is not None and self._list[j].vars is not None))",
+                 "forall(lambda j: implies(0 <= j < len(self._list), forall(lambda i: implies(0 <= i < len(self._list[j].vars), self._list[j].vars[i] is not None "
+                 "and self._list[j].vars[i].scale != 0 and self._list[j].vars[i].block is not None and self._list[j].vars[i].block.ps is not None))))"],
+    "modifies": [], "returns": "real",
+    "loops": {"for i in range(len(self._list) - 1, -1, -1)": {
+        "label": "_blocks", "index": "_kb", "locals": {"i": "int", "_sum": "real"},
+        "inv": [("suffix_sum", "_sum == costb(self, _kb + 1)")]}},
+    "ensures": [("sum_over_the_blocks", "result == costb(self, 0)")],
+}
 
 _CS_KEPT = "len(self.cs) == old(len(self.cs)) and forall(lambda i: implies(0 <= i < len(self.cs), self.cs[i] is old(self.cs[i])))"
 _SAT_POST = ["feasible(self)", "inv_blk()", "wf_lists(self)", "inv_cs_except(self, None)"] + _SOLVER_OK + ["self.vs is not None and vars_in_blocks(self.vs)", _CS_KEPT]
@@ -769,13 +855,17 @@ CONTRACTS["vpsc.Solver.solve"] = {
     "loops": {0: {"locals": {"lastcost": "real", "cost": "real"},
                   "modifies": CONTRACTS["vpsc.Solver.satisfy"]["modifies"], "allocates": ["Block", "PositionStats", "list"],
                   "inv": [(n, e) for n, e in zip(["feasible", "inv_blk", "wf_lists", "inv_cs", "solver_ok", "nonnull", "vars_in_blocks", "cs_kept"], _SAT_POST)]
-                  + [("cost_is_current", "cost == cost_of_state()")]}},
+                  + [("cost_is_current", "cost == costb(self.bs, 0)")]}},
     "ensures": [("feasible", "feasible(self)"),
-                ("cost_of_reported_positions", "result == cost_of_state()"),
+                ("cost_of_reported_positions", "result == costb(self.bs, 0)"),
                 ("vars_in_blocks", "self.vs is not None and vars_in_blocks(self.vs)"),
                 ("inv_blk", "inv_blk()"), ("wf_lists", "wf_lists(self)"), ("cs_kept", _CS_KEPT)],
     "returns": "real",
 }
+# Blocks.cost (verified above under the block-list representation facts, which satisfy does not carry): used in solve through its
+# postcondition only - "callee preconditions not established here"
+CONTRACTS["vpsc.Solver.solve"]["callee_contracts"] = {"vpsc.Blocks.cost": {
+    "requires": [], "modifies": [], "returns": "real", "ensures": ["result == costb(self, 0)"]}}
 # satisfy is used through its contract at solve's call sites
 CONTRACTS["vpsc.Solver.satisfy"]["allocates"] = ["Block", "PositionStats", "list"]
 CONTRACTS["vpsc.Solver.satisfy"]["returns"] = "none"
